@@ -34,6 +34,25 @@ def width_of(e):
     return 64
 
 
+def pointee_size(e):
+    """size in bytes of what a pointer/array-typed expression points at (1 for void/char/unknown)"""
+    t = ((e.get('type') or {}).get('desugaredQualType') or qtype(e) or '').replace('const ', '').replace('volatile ', '').strip()
+    if t.endswith('*'):
+        t = t[:-1].strip()
+    elif '[' in t:
+        t = t[:t.index('[')].strip()
+    else:
+        return None
+    return {'unsigned long': 8, 'long': 8, 'unsigned long long': 8, 'long long': 8, 'size_t': 8, 'uint64_t': 8, 'int64_t': 8,
+            'unsigned int': 4, 'int': 4, 'uint32_t': 4, 'u_int32_t': 4, 'int32_t': 4, 'unsigned short': 2, 'short': 2, 'uint16_t': 2,
+            'unsigned char': 1, 'char': 1, 'signed char': 1, 'uint8_t': 1, 'void': 1}.get(t, None)
+
+
+def is_pointer_typed(e):
+    t = ((e.get('type') or {}).get('desugaredQualType') or qtype(e) or '').strip()
+    return t.endswith('*')
+
+
 class VG:
     def __init__(self):
         self.tab = {}
@@ -86,7 +105,44 @@ class VG:
                 return a
         return self.mk('lin', w, tuple(sorted(terms.items())), c)
 
+    # ---- byte packs: zero-extended bytes placed at disjoint byte positions.  `a | b`, `a ^ b` and `a + b` coincide on them,
+    # and (pack << 8k) is a pack again, so "fold from the last byte to the first" and "xor each shifted byte in" normalise
+    # to the same node.
+    def as_pack(self, n):
+        k = self.nodes[n]
+        if k[0] == 'load' and k[2] == 8:
+            return {0: n}
+        if k[0] == 'c' and k[1] == 0:
+            return {}
+        if k[0] == 'pack':
+            return dict(k[1])
+        return None
+
+    def mkpack(self, d):
+        if not d:
+            return self.const(0)
+        if len(d) == 1 and 0 in d:
+            return d[0]
+        return self.mk('pack', tuple(sorted(d.items())))
+
+    def _pack_merge(self, a, b, w):
+        pa, pb = self.as_pack(a), self.as_pack(b)
+        if pa is None or pb is None or (not pa and not pb):
+            return None
+        if set(pa) & set(pb):
+            return None
+        d = dict(pa)
+        d.update(pb)
+        if max(d) * 8 + 8 > max(w, 8):
+            return None
+        return self.mkpack(d)
+
     def add(self, a, b, w, sign=1):
+        if sign == 1:
+            r = self._pack_merge(a, b, w)
+            if r is not None and (self.nodes[a][0] in ('pack', 'load') or self.nodes[b][0] in ('pack', 'load')) \
+                    and self.nodes[a][0] != 'lin' and self.nodes[b][0] != 'lin':
+                return r
         ta, ca = self._lin(a, w)
         tb, cb = self._lin(b, w)
         for k, v in tb.items():
@@ -111,6 +167,11 @@ class VG:
                 return self.const(self.cval(a) << self.cval(b), w)
             # a loaded byte shifted into place cannot overflow: the node does not depend on the arithmetic width
             if self.nodes[a][0] == 'idx' and self.cval(b) + 8 <= w:
+                return self.mk('shl', a, b, 0)
+            pa = self.as_pack(a)
+            if pa and self.cval(b) % 8 == 0 and (max(pa) * 8 + 8 + self.cval(b)) <= w:
+                return self.mkpack({pos + self.cval(b) // 8: bn for pos, bn in pa.items()})
+            if self.nodes[a][0] == 'load' and self.cval(b) + self.nodes[a][2] <= w:
                 return self.mk('shl', a, b, 0)
         return self.mk('shl', a, b, w)
 
@@ -196,6 +257,9 @@ class VG:
                 return self.mk('rotl', kl[1], self.cval(kl[2]), kl[3])
         if self.is_const(a) and self.is_const(b):
             return self.const(self.cval(a) | self.cval(b), w)
+        r = self._pack_merge(a, b, w)
+        if r is not None:
+            return r
         r = self._combine('or', a, b, w)
         if r is not None:
             return r
@@ -218,6 +282,9 @@ class VG:
             return b
         if self.is_const(b) and self.cval(b) == 0:
             return a
+        r = self._pack_merge(a, b, w)
+        if r is not None:
+            return r
         r = self._combine('xor', a, b, w)
         if r is not None:
             return r
@@ -255,6 +322,12 @@ class VG:
             base = self._mklin(dict(k[2]), k[3], 64)
         return self.mk('idx', base, i)
 
+    def load(self, addr, width):
+        """a `width`-bit load from byte address `addr` (addresses are ideal 64-bit linear forms over the buffer symbols)"""
+        t, c = self._lin(addr, self.nodes[addr][1] if self.nodes[addr][0] == 'lin' else 64)
+        a = self._mklin(t, c, 64)
+        return self.mk('load', a, width)
+
     def show(self, n, depth=0):
         k = self.nodes[n]
         if depth > 6:
@@ -276,6 +349,10 @@ class VG:
             return '(' + ' ^ '.join(self.show(t, depth + 1) for t in k[1]) + ')'
         if k[0] == 'idx':
             return '%s[%s]' % (self.show(k[1], depth + 1), self.show(k[2], depth + 1))
+        if k[0] == 'load':
+            return 'load%d@%s' % (k[2], self.show(k[1], depth + 1))
+        if k[0] == 'pack':
+            return 'bytes{' + ', '.join('%d:%s' % (pos, self.show(bn, depth + 1)) for pos, bn in k[1]) + '}'
         return '%s(%s)' % (k[0], ', '.join(self.show(a, depth + 1) if isinstance(a, int) and i < 2 else str(a) for i, a in enumerate(k[1:])))
 
     def constants(self, n, seen=None):
@@ -367,16 +444,31 @@ class Forward:
                 key = '%s[%d]' % (base, vg.cval(i))
                 if key in env:
                     return env[key]
-            # blocks pointer aliases resolve to their definition's symbol
+            if is_pointer_typed(strip(a)):
+                # element of a buffer reached through a pointer: a load of the element width from base + index * size
+                sz = pointee_size(strip(a)) or 1
+                addr = vg.add(self.ev(a, env), vg.mul(i, vg.const(sz), 64), 64)
+                return vg.load(addr, 8 * sz)
+            # a local array (message words, staging bytes): symbolic element
             bnode = env.get(base, vg.sym(base))
             return vg.idx(bnode, i)
         if k == 'UnaryOperator':
             op = s.get('opcode')
             if op == '*':
                 a = children(s)[0]
-                return vg.idx(self.ev(a, env), vg.const(0))
+                sz = pointee_size(strip(a)) or pointee_size(a) or 1
+                return vg.load(self.ev(a, env), 8 * sz)
             if op in ('++', '--'):
-                raise NotStraight('increment inside an expression')
+                # side effect inside an expression: the environment is updated, the value is the old (postfix) or new one
+                l = children(s)[0]
+                key = self.lvalue_key(l, env)
+                cur = env.get(key)
+                if cur is None:
+                    cur = self.ev(l, env)
+                step = vg.const(pointee_size(strip(l)) or 1) if is_pointer_typed(strip(l)) else vg.const(1)
+                new = vg.add(cur, step, max(width_of(l), 32), 1 if op == '++' else -1)
+                env[key] = new
+                return cur if s.get('isPostfix') else new
             v = self.ev(children(s)[0], env)
             w = width_of(s)
             if op == '~':
@@ -400,6 +492,23 @@ class Forward:
                 raise NotStraight('assignment inside an expression')
             va, vb = self.ev(a, env), self.ev(b, env)
             w = max(width_of(s), 32)
+            if op == '<<' and vg.is_const(vb):
+                # C semantics of a shift carried out in (signed 32-bit) int: a byte moved into bits 24..31 can set the sign
+                # bit, and the later conversion to a wider unsigned type then sign-extends.  Such a value is NOT the clean
+                # byte placement the published algorithms use - it is kept as a distinct node.
+                t = ((s.get('type') or {}).get('desugaredQualType') or qtype(s) or '').replace('const ', '').strip()
+                pa = vg.as_pack(va)
+                if t == 'int' and pa and (max(pa) * 8 + 8 + vg.cval(vb)) > 31:
+                    return vg.mk('sx32', vg.mk('shl', va, vb, 32))
+            if op in ('+', '-') and (is_pointer_typed(strip(a)) != is_pointer_typed(strip(b))):
+                # pointer +/- integer: the integer counts elements
+                if is_pointer_typed(strip(a)):
+                    sz = pointee_size(strip(a)) or 1
+                    vb = vg.mul(vb, vg.const(sz), 64) if sz != 1 else vb
+                else:
+                    sz = pointee_size(strip(b)) or 1
+                    va = vg.mul(va, vg.const(sz), 64) if sz != 1 else va
+                return vg.add(va, vb, 64, 1 if op == '+' else -1)
             if op == '&':
                 r = self._residue(va, vb, 'and')
                 return r if r is not None else vg.band(va, vb, w)
@@ -551,13 +660,17 @@ class Forward:
             v = self.ev(r, env)
             w = max(width_of(l), 32)
             op = st.get('opcode')[:-1]
+            if op in ('+', '-') and is_pointer_typed(strip(l)):
+                sz = pointee_size(strip(l)) or 1
+                v = vg.mul(v, vg.const(sz), 64) if sz != 1 else v
             env[key] = self._narrow(self.binop(op, cur, v, w), l)
             return None
         if k == 'UnaryOperator' and st.get('opcode') in ('++', '--'):
             l = children(st)[0]
             key = self.lvalue_key(l, env)
             cur = env.get(key, self.ev(l, env))
-            env[key] = vg.add(cur, vg.const(1), max(width_of(l), 32), 1 if st.get('opcode') == '++' else -1)
+            step = vg.const(pointee_size(strip(l)) or 1) if is_pointer_typed(strip(l)) else vg.const(1)
+            env[key] = vg.add(cur, step, max(width_of(l), 32), 1 if st.get('opcode') == '++' else -1)
             return None
         if k == 'IfStmt':
             ch = st['inner']
@@ -581,6 +694,36 @@ class Forward:
                 return None           # no effect on the tracked scalars (Decode fills the message words: symbols x[k])
             self.call(st, env)
             return None
+        if k in ('WhileStmt', 'ForStmt', 'DoStmt'):
+            # a loop whose condition folds to a constant in every iteration (e.g. the tail loop once the length residue is
+            # known) is unrolled; anything else is not straight-line code
+            if k == 'ForStmt':
+                init, _cv, cond, inc, body = st['inner']
+                if init:
+                    self.stmt(init, env)
+            elif k == 'WhileStmt':
+                cond, body = st['inner'][0], st['inner'][1]
+                inc = None
+            else:
+                body, cond = st['inner'][0], st['inner'][1]
+                inc = None
+            first = k == 'DoStmt'
+            for _ in range(130):
+                if not first:
+                    c = self.ev(cond, env) if cond else vg.const(1)
+                    if not vg.is_const(c):
+                        raise NotStraight('loop on a non-constant condition %s' % canon(cond)[:50])
+                    if not vg.cval(c):
+                        return None
+                first = False
+                r = self.stmt(body, env)
+                if r is Forward.BREAK:
+                    return None
+                if r is not None:
+                    return r
+                if inc:
+                    self.stmt(inc, env) if inc.get('kind') in ('BinaryOperator', 'CompoundAssignOperator', 'UnaryOperator', 'CallExpr') else self.ev(inc, env)
+            raise NotStraight('loop does not finish within 130 iterations')
         if k == 'BreakStmt':
             return Forward.BREAK
         if k in ('ImplicitCastExpr', 'ParenExpr', 'CStyleCastExpr'):
